@@ -139,6 +139,9 @@ func genC01(t *rapid.T) ReqCase {
 	if g.Chance(1, 2) {
 		o.MaxBiases = 0
 	}
+	if g.Chance(1, 12) { // larger problems: sizes where library sorts stop being accidentally stable
+		o.MinAlts, o.MaxAlts, o.MaxCrit = 8, 20, 14
+	}
 	return mkReqCase(genRequest(t, o))
 }
 
